@@ -98,6 +98,7 @@ def verify_function(world, reg, c, prop, timeout_ms=20000, mutate=None):
         pass
     old = it.snapshot(env)
     it.entry_old = old
+    it.ghost_at_entry = dict(it.ghost)
     outcome, val = None, None
     try:
       args = [env[a.arg] for a in node.args.posonlyargs + node.args.args]
@@ -145,6 +146,7 @@ def verify_function(world, reg, c, prop, timeout_ms=20000, mutate=None):
       if not allowed:
         it.oblige(f'{name}/no-unexpected-exception[{val.cls}]', z3.BoolVal(False), 'unexpected-exception',
                   {'text': f'{val.cls} escapes but the contract does not allow it: {val.args}'})
+    frame_check(it, c, env, old, name)
     for k, e in enumerate(c.always):
       it.oblige(f'{name}/always#{k}', it.spec(e, env2, old), 'postcondition-all-exits', {'text': e})
     # vacuity: this exit must be reachable (cover) under everything assumed on the way
@@ -182,6 +184,70 @@ def verify_function(world, reg, c, prop, timeout_ms=20000, mutate=None):
     res.status, res.error = 'error', traceback.format_exc()
   res.secs = time.time() - t0
   return res
+
+
+def frame_check(it, c, env, old, name):
+  """Frame obligations: every heap location reachable from the parameters that
+  the contract does not list under `modifies` is unchanged at exit (so that call
+  sites may keep what they know about it)."""
+  mods = set(c.modifies)
+
+  def listed(p):
+    return any(p == m or p.startswith(m + '.') for m in mods)
+
+  seen = set()
+
+  def walk(live, was, p):
+    if isinstance(live, VOpt) and isinstance(was, VOpt):
+      if isinstance(live.val, (VObj, VMList, VMap, VIter)):
+        return walk(live.val, was.val, p)
+    if isinstance(was, VObj):
+      if id(was) in seen or not isinstance(live, VObj):
+        return
+      seen.add(id(was))
+      for fname, wv in was.f.items():
+        if fname.startswith('__'):
+          continue
+        fp = f'{p}.{fname}'
+        if listed(fp):
+          continue
+        lv = live.f.get(fname)
+        if lv is None:
+          continue
+        if isinstance(wv, (VObj, VMList, VMap, VIter)) or (isinstance(wv, VOpt) and isinstance(wv.val, (VObj, VMList, VMap, VIter))):
+          walk(lv, wv, fp)
+        elif isinstance(wv, VLock):
+          gk = f'{wv.name}.free'
+          if gk in it.ghost and gk in it.ghost_at_entry and not listed('lock:' + fp):
+            it.oblige(f'{name}/frame[lock:{fp}]', it.ghost[gk].t == it.ghost_at_entry[gk].t, 'frame',
+                      {'text': f'lock {fp} is in the same state as at entry (not listed in modifies)'})
+        elif isinstance(wv, (VInt, VBool, VReal, VOpt, VOpaque, VNoneT, VTuple)) and not was.frozen:
+          try:
+            same = it.ident(lv, wv) if isinstance(wv, (VOpt, VOpaque, VNoneT)) else it.eq(lv, wv)
+            if isinstance(wv, VReal):
+              same = z3.And(lv.t == wv.t, lv.nan == wv.nan) if isinstance(lv, VReal) else z3.BoolVal(False)
+          except Unsupported:
+            continue
+          it.oblige(f'{name}/frame[{fp}]', same, 'frame', {'text': f'{fp} unchanged (not listed in modifies)'})
+    elif isinstance(was, VMList) and isinstance(live, VMList):
+      if not listed(p):
+        it.oblige(f'{name}/frame[{p}]', it.eq(live.seq, was.seq), 'frame', {'text': f'{p} unchanged'})
+    elif isinstance(was, VMap) and isinstance(live, VMap):
+      if not listed(p):
+        g = z3.And(live.has == was.has, live.val == was.val)
+        if was.none is not None:
+          g = z3.And(g, live.none == was.none)
+        if was.stamp is not None:
+          g = z3.And(g, live.stamp == was.stamp)
+        it.oblige(f'{name}/frame[{p}]', g, 'frame', {'text': f'{p} unchanged'})
+    elif isinstance(was, VIter) and isinstance(live, VIter):
+      if not listed(p):
+        it.oblige(f'{name}/frame[{p}]', live.pos == was.pos, 'frame', {'text': f'{p} cursor unchanged'})
+
+  for pname, was in old.items():
+    if pname.startswith('__') or pname not in env:
+      continue
+    walk(env[pname], was, pname)
 
 
 def world_qual(mod, cls, node):
